@@ -3,6 +3,7 @@ package main
 import (
 	"fmt"
 	"os"
+	"path/filepath"
 	"go/token"
 	"go/types"
 	"strings"
@@ -712,10 +713,14 @@ func (e *Engine) globalObj(gl *ssa.Global) *Object {
 	e.globals[gl] = o
 	// error sentinels: a unique opaque error value per global
 	if types.Identical(et, types.Universe.Lookup("error").Type()) {
-		o.val = e.sentinelError(gl.String())
+		o.val = e.sentinelError(gl.Name())
 		return o
 	}
 	// other globals of the packages under test: run the package initialiser (tolerantly) once
+	// (harness-declared globals start from their zero value)
+	if gl.Pos().IsValid() && strings.HasPrefix(filepath.Base(e.fset.Position(gl.Pos()).Filename), "zz_verif") {
+		return o
+	}
 	if gl.Pkg != nil && e.wantInit(gl.Pkg) {
 		e.runInit(gl.Pkg)
 	}
